@@ -41,7 +41,7 @@ let cmd_issmid t =
   let b = next_hex t in
   Printf.printf "mid=%s\n" (hex_of_bytes (midstate256 b))
 
-let read_contract t : contract option =
+let read_contract t : iss_contract option =
   if next_int t = 0 then None else begin
     let name = next_hex t in let ticker = next_hex t in
     let version = next_dec t in let precision = next_dec t in
@@ -59,7 +59,7 @@ let cmd_isscon t =
       (hex_of_bytes ie.ie_chash) (hex_of_bytes ie.ie_iss.iss_amount) (hex_of_bytes ie.ie_iss.iss_token)
       (hex_of_bytes ie.ie_iss.iss_nonce) (hex_of_bytes ie.ie_iss.iss_entropy) (dec_of_n ie.ie_precision)
 
-let read_addr t : addr =
+let read_addr t : iss_addr =
   let _ = next t in
   let present = next_int t = 1 in let valid = next_int t = 1 in let conf = next_int t = 1 in
   let script = next_hex t in let key = next_hex t in
@@ -88,8 +88,8 @@ let cmd_issv0 t =
       let _ = next t in let ent = next_opt t in
       let asset = next_dec t in let token = next_dec t in
       let aa = read_addr t in let ta = read_addr t in
-      v0_add_reissuance p { ra_utxo_ok = utxo_ok; ra_hash = hash; ra_index = idx; ra_blinder = bl; ra_entropy = ent;
-                            ra_asset = asset; ra_token = token; ra_aaddr = aa; ra_taddr = ta }
+      v0_add_reissuance p { rva_utxo_ok = utxo_ok; rva_hash = hash; rva_index = idx; rva_blinder = bl; rva_entropy = ent;
+                            rva_asset = asset; rva_token = token; rva_aaddr = aa; rva_taddr = ta }
     end in
   Printf.printf "res=%s nin=%s nout=%s tx=%s\n" (if ok then "ok" else "err") (dec_of_n p'.v0_nin) (dec_of_n p'.v0_nout)
     (Drv_tx.dump_tx p'.v0_tx)
